@@ -314,6 +314,64 @@ returned and its plan vector grew without bound ("planning always terminates" wa
 theorem c03_sort_orig_diverges :
     createPlanWith witnessCyc false (some 64) [0] [1] {} = .error .outOfFuel := by decide
 
+/-! The divergence is genuine, not an artefact of the budget 64: -/
+
+def opX : OpNode := { inputs := [some 2], outputs := [some 0, some 1] }
+def opR : OpNode := { inputs := [some 0], outputs := [some 2] }
+def planCyc : List (Nat × OpNode) := [(4, opR), (3, opX)]
+
+theorem cyc_loop : ∀ (fuel : Nat) (r em : List Nat), 0 ∈ r →
+    sortLoop witnessCyc false planCyc fuel [(4, opR)] r em = none ∧
+    (2 ∈ r → sortLoop witnessCyc false planCyc fuel [(3, opX)] r em = none) := by
+  intro fuel
+  induction fuel with
+  | zero => intro r em _; exact ⟨rfl, fun _ => rfl⟩
+  | succ f ih =>
+    intro r em h0
+    constructor
+    · have hrem : removeAt [(4, opR)] (pickPos [(4, opR)]) = some ((4, opR), []) := by decide
+      have hc : (opOutputs opR).flatMap (dependents witnessCyc planCyc) = [(3, opX)] := by decide
+      have hready : depsResolved witnessCyc (r ++ opOutputs opR) opX = true := by
+        rw [depsResolved_iff]
+        intro d hd
+        have : d = 2 := by
+          have hdeps : opDeps witnessCyc opX = [2] := by decide
+          rw [hdeps] at hd; simpa using hd
+        subst this
+        exact rContains_of_mem (List.mem_append_right _ (by decide))
+      simp only [sortLoop, hrem, hc, pushCandidates, List.any_nil, Bool.false_and, hready]
+      exact (ih _ _ (List.mem_append_left _ h0)).2 (List.mem_append_right _ (by decide))
+    · intro h2
+      have hrem : removeAt [(3, opX)] (pickPos [(3, opX)]) = some ((3, opX), []) := by decide
+      have hc : (opOutputs opX).flatMap (dependents witnessCyc planCyc) = [(4, opR)] := by decide
+      have hready : depsResolved witnessCyc (r ++ opOutputs opX) opR = true := by
+        rw [depsResolved_iff]
+        intro d hd
+        have : d = 0 := by
+          have hdeps : opDeps witnessCyc opR = [0] := by decide
+          rw [hdeps] at hd; simpa using hd
+        subst this
+        exact rContains_of_mem (List.mem_append_left _ h0)
+      simp only [sortLoop, hrem, hc, pushCandidates, List.any_nil, Bool.false_and, hready]
+      exact (ih _ _ (List.mem_append_left _ h0)).1
+
+/-- Before the fix the frontier loop on witness C never ends: **no** budget is enough
+(operators 4 and 3 re-schedule each other forever). -/
+theorem c03_sort_orig_diverges_all (fuel : Nat) :
+    createPlanWith witnessCyc false (some fuel) [0] [1] {} = .error .outOfFuel := by
+  have hd : dfsPlan witnessCyc [0] [1] {} =
+      .ok { resolved := [0, 2, 0, 1], plan := planCyc, active := [] } := by decide
+  have hfr : planCyc.filter (fun e => depsResolved witnessCyc (resolvedNew witnessCyc [0] true) e.2)
+      = [(4, opR)] := by decide
+  have hloop := (cyc_loop fuel (resolvedNew witnessCyc [0] true) [] (by decide)).1
+  have h1 : (firstDup [1]).isSome = false := by decide
+  have h2 : [1].all (isValueOrConstant witnessCyc) = true := by decide
+  have h3 : (firstDup [0]).isSome = false := by decide
+  have h4 : [0].all (isValueOrConstant witnessCyc) = true := by decide
+  simp only [createPlanWith, h1, h2, h3, h4, hd, sortPlanFuel, hfr, Option.getD_some]
+  rw [hloop]
+  rfl
+
 /-- The same request with the code as it stands. -/
 theorem c03_sort_fixed_witnessCyc : createPlan witnessCyc [0] [1] {} = .ok [4, 3] := by decide
 
